@@ -683,6 +683,15 @@ void urcu_bp_exit_destructor(void)
  * sure we fork() don't race with a concurrent thread executing with
  * any of those locks held. This ensures that the registry and data
  * protected by rcu_gp_lock are in a coherent state in the child.
+ *
+ * The init_lock is held across fork as well: a thread registering
+ * (first rcu_read_lock()) or exiting at that moment takes it in
+ * _urcu_bp_init()/urcu_bp_exit(). That thread does not exist in the
+ * child, where the lock would otherwise stay locked forever and block
+ * every thread registering there, including the call_rcu worker thread
+ * created by the after-fork-child handler. It is always taken on its
+ * own, never while holding rcu_gp_lock or rcu_registry_lock, so taking
+ * it first keeps the lock order acyclic.
  */
 void urcu_bp_before_fork(void)
 {
@@ -693,6 +702,7 @@ void urcu_bp_before_fork(void)
 	urcu_posix_assert(!ret);
 	ret = pthread_sigmask(SIG_BLOCK, &newmask, &oldmask);
 	urcu_posix_assert(!ret);
+	mutex_lock(&init_lock);
 	mutex_lock(&rcu_gp_lock);
 	mutex_lock(&rcu_registry_lock);
 	saved_fork_signal_mask = oldmask;
@@ -706,6 +716,7 @@ void urcu_bp_after_fork_parent(void)
 	oldmask = saved_fork_signal_mask;
 	mutex_unlock(&rcu_registry_lock);
 	mutex_unlock(&rcu_gp_lock);
+	mutex_unlock(&init_lock);
 	ret = pthread_sigmask(SIG_SETMASK, &oldmask, NULL);
 	urcu_posix_assert(!ret);
 }
@@ -743,6 +754,7 @@ void urcu_bp_after_fork_child(void)
 	oldmask = saved_fork_signal_mask;
 	mutex_unlock(&rcu_registry_lock);
 	mutex_unlock(&rcu_gp_lock);
+	mutex_unlock(&init_lock);
 	ret = pthread_sigmask(SIG_SETMASK, &oldmask, NULL);
 	urcu_posix_assert(!ret);
 }
